@@ -160,7 +160,7 @@ def generate(rng, tier: str, index: int) -> dict:
         steps.append(
             {
                 'edits': edits, 'fault': fault, 'via': rng.choice(['signal', 'signal', 'api']), 'api_ops': api_ops,
-                'sessions': {str(i): rng.choice(['up', 'up', 'up', 'down', 'die']) for i in range(3)}, 'gap': rng.choice([0.0, 0.05, 1.0]),
+                'sessions': {str(i): rng.choice(['up', 'up', 'up', 'down', 'die', 'opensent']) for i in range(3)}, 'gap': rng.choice([0.0, 0.05, 1.0]),
             }
         )  # fmt: skip
         if fault is None:
@@ -294,6 +294,11 @@ def execute(plan: dict) -> dict:
                 st['stable'] = 0
                 for i in list(st['down']):
                     speakers[i].accept_mode = 'accept'
+                    if not speakers[i].auto_open:
+                        speakers[i].auto_open = True
+                        cur = speakers[i].current()
+                        if cur is not None and not cur.sent_open:
+                            speakers[i].send_open(cur)
                 st['down'] = set()
                 st['t'] = now
             else:
@@ -323,6 +328,16 @@ def execute(plan: dict) -> dict:
                         st['down'].add(i)
                         probes['sessions_down_at_reload'] += 1
                         speakers[i].accept_mode = 'refuse'
+                        s = speakers[i].established()
+                        if s:
+                            s.reset()
+                    elif mode == 'opensent' and i not in st['down']:
+                        # down, but not idle: the speaker accepts the TCP connection and withholds its OPEN
+                        st['down'].add(i)
+                        probes['sessions_down_at_reload'] += 1
+                        probes['sessions_held_in_opensent'] = probes.get('sessions_held_in_opensent', 0) + 1
+                        speakers[i].auto_open = False
+                        speakers[i].accept_mode = 'accept'
                         s = speakers[i].established()
                         if s:
                             s.reset()
